@@ -106,7 +106,7 @@ macro "w_tac" : tactic => `(tactic| (
   (repeat' split at st)
   all_goals (first | (simp at st; done) | skip)
   all_goals (simp only [Option.some.injEq] at st; subst st)
-  all_goals (constructor <;> first | assumption | (simp only [upd, lockS, unlockS, newHelper, relocate, willWake, cont_waker, cont_waking, cont_isAddQ] at * <;>
+  all_goals (constructor <;> first | assumption | (simp only [upd, lockS, unlockS, newHelper, relocate, nestOn, csOn, nestOff, willWake, cont_waker, cont_waking, cont_isAddQ] at * <;>
     grind [upd, FOk, TPc.freeing, TPc.holds, TPc.waker, TPc.waking, TPc.isAddQ, HPc.futZero, HPc.waitRegion, K.fr, GK.fr, K.holds,
       cont_waker, cont_waking, cont_isAddQ, append_ne_nil_r, → addq_holds]))))
 
